@@ -271,6 +271,8 @@ def run(ctx):
     r08c(ctx)
     r08d(ctx)
     r08e(ctx)
+    from ..oneshot import e11
+    e11(ctx)          # candidate scans start afresh on every round (no one-shot iterator re-walked)
     from . import c02
     c02.r02b(ctx)     # swapping two unequal list elements costs something only if unequal leaves cost something
     c02.r02f(ctx)
